@@ -52,9 +52,14 @@ def run(ctx):
         if c['d'] >= 2:
             ctx.nontriv(('ode', json.dumps(c['a']), tuple(c['y']), c['k']))
         rate = lambda v: v @ A.T
+        rate_kw = lambda v, M=None, shift=0.0: v @ M.T + shift          # the rate law takes its parameters through the integrator's **kwargs
         for name, fn, key in (('euler', euler, 'euler'), ('rungekutta', rungekutta, 'rk')):
             try:
                 got = np.atleast_1d(fn(rate, y.copy(), h))
+                gkw = np.atleast_1d(fn(rate_kw, y.copy(), h, M=A, shift=0.0))
+                if not np.array_equal(got, gkw):
+                    ctx.violation('%s step differs when the rate law receives its parameters through the keyword pass-through' % name,
+                                  'A=%s y=%s h=%s got %s and %s' % (c['a'], c['y'], h, got.tolist(), gkw.tolist()), c)
             except Exception as e:
                 ctx.violation('%s raised %s' % (name, excname(e)), repr(e)[:200], c)
                 continue
@@ -167,25 +172,32 @@ def run(ctx):
     # of relax() has to use the step it was given
     runs += [(1.0, 5, False, -1.0), (2.0, 7, True, -1.0)]          # stiff = -1 marks: short string, tolerance=0 (never stop early), tight acceptance
     runs += [(1.0, 10, True, 250.0)] if quick else [(1.0, 10, True, 250.0), (2.0, 16, False, 400.0), (0.5, 10, False, 250.0)]
-    for ri, (c2, nimg, bent, stiff) in enumerate(runs):
+    runs = [r + (1.0,) for r in runs]
+    # the same surface on a length scale of 2^-16 (coordinates of order 1e-5): only the finite-difference step given at construction
+    # (1e-6 of that scale) is adequate, so every path object handed back by step() / relax() has to keep it
+    runs += [(1.0, 11, True, 1.0, 2.0 ** -16)] if quick else [(1.0, 11, True, 1.0, 2.0 ** -16), (2.0, 15, False, 1.0, 2.0 ** -16)]
+    for ri, (c2, nimg, bent, stiff, Ls) in enumerate(runs):
         zero_tol = stiff < 0
         stiff = abs(stiff)
-        def energy(X, c2=c2, stiff=stiff):
-            X = np.asarray(X)
+        def energy(X, c2=c2, stiff=stiff, Ls=Ls):
+            X = np.asarray(X) / Ls
             return stiff * ((X[..., 0] ** 2 - 1) ** 2 + c2 * X[..., 1] ** 2)
         dt1, dt2 = (0.01 if ri % 3 else 0.02, 0.01) if stiff == 1.0 else (1.5 / (8 * stiff), 1.5 / (8 * stiff))
+        dt1, dt2 = dt1 * Ls * Ls, dt2 * Ls * Ls
         t = np.linspace(0, 1, nimg)
         start = np.array([-1.3, 0.4])
         end = np.array([0.9, -0.3])
         coord = start + np.outer(t, end - start)
         if bent:
             coord[:, 1] += 0.6 * np.sin(np.pi * t)
-        tag = {'c': c2, 'nimg': nimg, 'bent': bent, 'stiff': stiff, 'tolerance0': zero_tol, 'options': 'default' if ri % 2 == 0 else 'explicit'}
+        coord = coord * Ls
+        explicit = bool(ri % 2) or Ls != 1.0
+        tag = {'c': c2, 'nimg': nimg, 'bent': bent, 'stiff': stiff, 'tolerance0': zero_tol, 'length_scale': Ls, 'options': 'explicit' if explicit else 'default'}
         try:
-            if ri % 2 == 0:
+            if not explicit:
                 path = mep.create_path(coord, energy, style='ISM')
             else:
-                path = mep.create_path(coord, energy, style='ISM', gradientfxn='cdiff', gradientkwargs={'shift': 1e-6}, integratorfxn='rk')
+                path = mep.create_path(coord, energy, style='ISM', gradientfxn='cdiff', gradientkwargs={'shift': 1e-6 * Ls}, integratorfxn='rk')
             e0, e1 = [], []
             cur = path
             for blk in range(6):
@@ -199,11 +211,11 @@ def run(ctx):
                 fin = cur.relax(relaxsteps=2000, climbsteps=1500 if not zero_tol else 6000, timestep=dt2, verbose=False, **({'tolerance': 0} if zero_tol else {}))
             en = fin.energy() / stiff
             it = int(np.argmax(en))
-            g = (fin.grad_energy(fin.coord[it:it + 1])[0] if hasattr(fin, 'grad_energy') else np.zeros(2)) / stiff
+            g = (fin.grad_energy(fin.coord[it:it + 1])[0] if hasattr(fin, 'grad_energy') else np.zeros(2)) / stiff * Ls
             recs.append({'ev': 'relax', 'tag': tag, 's': S, 'tol': S // 500 if not zero_tol else S // 50000, 'climb': True,
-                         'end0': [_cl(round(x * S)) for x in fin.coord[0]], 'end1': [_cl(round(x * S)) for x in fin.coord[-1]],
-                         'e0hist': e0, 'e1hist': e1, 'top': [_cl(round(x * S)) for x in fin.coord[it]], 'etop': _cl(round(en[it] * S)),
-                         'gtop': _cl(round(float(np.linalg.norm(g)) * S)), 'arc': [_cl(round(x * S)) for x in fin.arccoord]})
+                         'end0': [_cl(round(x / Ls * S)) for x in fin.coord[0]], 'end1': [_cl(round(x / Ls * S)) for x in fin.coord[-1]],
+                         'e0hist': e0, 'e1hist': e1, 'top': [_cl(round(x / Ls * S)) for x in fin.coord[it]], 'etop': _cl(round(en[it] * S)),
+                         'gtop': _cl(round(float(np.linalg.norm(g)) * S)), 'arc': [_cl(round(x / Ls * S)) for x in fin.arccoord]})
         except Exception as ex:
             import traceback
             tb = traceback.extract_tb(ex.__traceback__)[-1]
